@@ -31,6 +31,7 @@ THEOREMS = [
     "PorepyVerif.C05.identify_out_of_range",
     "PorepyVerif.C05.projection_selects",
     "PorepyVerif.C05.keys_unique_reachable",
+    "PorepyVerif.C05.validateSet_nodup",
     "PorepyVerif.C05.set_get_roundtrip",
     "PorepyVerif.C05.set_get_additive",
     "PorepyVerif.C05.set_frame",
@@ -46,8 +47,8 @@ RULE = ("histories of 1-25 (thorough: 1-40) EquationSystem calls on md-grids wit
         "cells/faces/nodes multiplicities 0-3 (zero-size blocks frequent) and names from a pool of 4 so that the same name "
         "recurs on other grids and after removal; values are small dyadic rationals; ~12 % malformed calls (unknown / "
         "duplicate / foreign grids, removed or foreign variables, wrong vector sizes, bad indices, out-of-range dofs). "
-        "After every call the complete layout (variables, block numbers in dict order, block sizes) is compared, and "
-        "after every layout change dofs_of of every variable and identify_dof of every index in [-1, num_dofs]. "
+        "After every create/remove (and at the end) the complete layout (variables, block numbers in dict order, block "
+        "sizes) is compared, together with dofs_of of every variable and identify_dof of every index in [-1, num_dofs]. "
         "non-trivial = at least two creates, one remove that succeeds, and one set/get pair; distinct = distinct histories")
 TRUSTED = [
     "modelled, not verified: python dict insertion order = the lists of the model; numpy slicing/concatenate/cumsum/argmax/sort "
@@ -260,9 +261,11 @@ LAYOUT_OPS = ("create", "remove")
 def impl_run(case):
     w = World(case)
     out = []
+    last = len(case["ops"]) - 1
     for j, op in enumerate(case["ops"]):
         out.append(w.apply(j, op))
-        out.append(w.dump())
+        if op["op"] in LAYOUT_OPS or j == last:
+            out.append(w.dump())
         if op["op"] in LAYOUT_OPS:
             out.append(w.probe())
     return out
@@ -285,14 +288,16 @@ def model_ops(case):
     subs, intfs = expected_order(case)
     row = lambda k: [k] + list(_entity_counts(gs[k]))
     ops = [{"op": "init", "subs": [row(k) for k in subs], "intfs": [row(k) for k in intfs]}]
-    for op in case["ops"]:
+    last = len(case["ops"]) - 1
+    for j, op in enumerate(case["ops"]):
         m = dict(op)
         if "refs" in m:
             m["refs"] = _mrefs(m["refs"])
         if m["op"] == "create" and m["dof"] is None:
             m["dof"] = [[0, 1]]
         ops.append(m)
-        ops.append({"op": "dump"})
+        if op["op"] in LAYOUT_OPS or j == last:
+            ops.append({"op": "dump"})
         if op["op"] in LAYOUT_OPS:
             ops.append({"op": "probe"})
     return ops
@@ -412,13 +417,21 @@ def _check_values(w, rng, tag):
     return None
 
 
+def _guard(fn, tag, *a):
+    """A well-formed call of the real code that raises is a failure of the statement, not of the harness."""
+    try:
+        return fn(*a)
+    except Exception as e:
+        return {"what": f"{tag}: a well-formed call raised {type(e).__name__} ({str(e)[:120]}) during {fn.__name__}", "key": f"wellformed-call-raises:{fn.__name__}"}
+
+
 def oracle(case):
     w = World(case)
     es = w.es
     rng = random.Random(repr(case["ops"])[:200] + str(len(case["ops"])))
     ngrids = len(case["grids"])
     clustered = True
-    r = _check_layout(w, case, clustered, "initially")
+    r = _guard(_check_layout, "initially", w, case, clustered, "initially")
     if r:
         return r
     for j, op in enumerate(case["ops"]):
@@ -428,7 +441,9 @@ def oracle(case):
         if kind == "set":
             # the statement for this very call: written values come back (old + written if additive)
             sel = _resolve(w, op["refs"])
-            pre = _pre_set(w, op, sel)
+            pre = _guard(_pre_set, tag, w, op, sel)
+            if pre is not None and "key" in pre:
+                return pre
         ans = w.apply(j, op)
         if kind == "create" and (op.get("subs") is None) != (op.get("intfs") is None):
             gl = op["subs"] if op.get("subs") is not None else op["intfs"]
@@ -438,33 +453,33 @@ def oracle(case):
         if kind == "create" and isinstance(ans, dict) and "ids" in ans:
             clustered = True  # a create that ran to completion re-clustered everything
         if kind == "set" and pre is not None and ans == "ok":
-            r = _post_set(w, op, pre, tag)
+            r = _guard(_post_set, tag, w, op, pre, tag)
             if r:
                 return r
         if kind == "set" and pre is not None and pre["wellformed"] and ans != "ok":
             return {"what": f"{tag}: a correctly sized write to registered variables raised {ans}", "key": "set-raises"}
         if kind in LAYOUT_OPS or j == len(case["ops"]) - 1:
-            r = _check_layout(w, case, clustered, tag)
+            r = _guard(_check_layout, tag, w, case, clustered, tag)
             if r:
                 return r
             vs = list(es._variables.values())
             for sel in [vs] + [[v] for v in vs[:6]] + ([rng.sample(vs, rng.randint(1, len(vs)))] if vs else []):
                 if sel:
-                    r = _check_projection(w, sel, tag)
+                    r = _guard(_check_projection, tag, w, sel, tag)
                     if r:
                         return r
-            r = _check_values(w, rng, tag)
+            r = _guard(_check_values, tag, w, rng, tag)
             if r:
                 return r
         if kind == "projection" and isinstance(ans, dict) and "err" not in ans:
             sel = _resolve(w, op["refs"])
             if sel is not None and len({v.id for v in sel}) == len(sel) and all(v.id in es._variables for v in sel):
-                r = _check_projection(w, sel, tag) if sel else None
+                r = _guard(_check_projection, tag, w, sel, tag) if sel else None
                 if r:
                     return r
         if kind == "dofs_of" and isinstance(ans, dict) and "ids" in ans:
             sel = _resolve(w, op["refs"])
-            if sel is not None:
+            if sel is not None and all(v.id in es._variables for v in sel):
                 want = [int(i) for v in sel for i in es.dofs_of([v])]
                 if ans["ids"] != want:
                     return {"what": f"{tag}: dofs_of of a list is {ans['ids']}, the concatenation of the single blocks in argument order is {want}", "key": "dofs-of-list-order"}
